@@ -65,6 +65,9 @@ SPECIAL = [
     [["int", 3, False, False], ["int", 16, True, True], ["int", 5, True, False]], [["int", 1, True, False], ["int", 7, True, False]],
     [["int", 40, True, True]], [["int", 12, True, False], ["int", 20, False, False], ["int", 32, True, True]],
     [["flag", 1], ["pad", 6], ["flag", 1], ["int", 8, True, True]],
+    # signed fields wider than 16 bits whose width is not a whole number of bytes
+    [["int", 17, True, False], ["int", 7, False, False]], [["int", 4, False, False], ["int", 20, True, False]], [["int", 23, True, False], ["flag", 1]],
+    [["int", 19, True, False], ["int", 13, True, False]], [["int", 3, False, False], ["int", 21, True, False]],
 ]
 
 
@@ -115,7 +118,8 @@ def instances(tier, seed):
             seen.add(o["name"])
             uniq.append(o)
     for k in ("nested", "bytewise", "bytewise-stream", "greedy-tail", "greedy-tail-3", "array-stream", "nonmultiple", "empty-island", "empty-island-stream", "empty-bitstruct",
-              "padded-stream", "aligned-stream", "padded-array-stream", "bytewise-dynamic"):
+              "padded-stream", "aligned-stream", "padded-array-stream", "bytewise-dynamic",
+              "bytewise-signed", "bytewise-signed-stream"):
         uniq.append(dict(name="special %s" % k, params=dict(kind=k)))
     return uniq
 
@@ -272,6 +276,24 @@ def _special(ctx, C, p):
         ctx.check("a byte-oriented member embedded with Bytewise sees the re-assembled bytes",
                   api.and_terms([ctx.eq(v.a, G // (2 ** 20)), ctx.eq(v.b, (G // 16) % 65536), ctx.eq(v.c, G % 16)]))
         ctx.check("build inverts parse", ctx.eq(d.build(v, **kw), data))
+        return "ok"
+    if k in ("bytewise-signed", "bytewise-signed-stream"):
+        # signed and little-endian byte-oriented integers as islands of a bit region
+        first = "Nibble" if k == "bytewise-signed" else "BitsInteger(this._params.w)"
+        kw = {} if k == "bytewise-signed" else dict(w=4)
+        for isl, nbytes, little in (("Int24sb", 3, False), ("Int24sl", 3, True), ("BytesInteger(2, signed=True, swapped=True)", 2, True), ("Int16sb", 2, False), ("BytesInteger(3, signed=True)", 3, False)):
+            d = mk(C, "Bitwise(Struct('a'/%s, 'b'/Bytewise(%s), 'c'/Nibble))" % (first, isl))
+            data = ctx.bytes("data %s" % isl, nbytes + 1)
+            v = d.parse(data, **kw)
+            G = 0
+            for x in data:
+                G = G * 256 + x
+            raw = (G // 16) % (256 ** nbytes)
+            if little:
+                raw = sum(((raw // (256 ** i)) % 256) * (256 ** (nbytes - 1 - i)) for i in range(nbytes))
+            ctx.check("island %s: fields around it and its signed value" % isl,
+                      api.and_terms([ctx.eq(v.a, G // (2 ** (8 * nbytes + 4))), ctx.eq(v.b, _signed(ctx, raw, 8 * nbytes)), ctx.eq(v.c, G % 16)]))
+            ctx.check("island %s: build inverts parse" % isl, ctx.eq(d.build(v, **kw), data))
         return "ok"
     if k in ("empty-island", "empty-island-stream"):
         # a byte-oriented island of zero bytes consumes no bits; the fields after it stay where the layout puts them
